@@ -127,6 +127,9 @@ func (entry *Entry) UnmarshalJSON(b []byte) error {
 	if err := json.Unmarshal(b, &aux); err != nil {
 		return err
 	}
+	if aux == nil { // JSON null resets the pointer
+		return errors.New("OneCRL entry is null")
+	}
 	schemaSeconds := int64(aux.Schema) / 1000
 	schema := time.Unix(schemaSeconds, 0)
 	lastModifiedSeconds := int64(aux.LastModified) / 1000
@@ -237,6 +240,9 @@ func Parse(raw []byte) (*OneCRL, error) {
 			continue
 		}
 
+		if entry.Issuer == nil {
+			return nil, errors.New("Could not parse OneCRL: entry without issuer")
+		}
 		issuerList := oneCRL.FindIssuer(entry.Issuer)
 		if issuerList != nil { // if list already exists for this issuer, append
 			issuerList.Entries = append(issuerList.Entries, entry)
